@@ -15,7 +15,8 @@ ValueClasses == {"plain", "markup", "quotes", "nonascii", "padded", "lookalike_c
 Algs == {"sha1", "sha256"}
 Scn == [signResp : BOOLEAN, signAssert : BOOLEAN, enc : BOOLEAN, alg : Algs, binding : {"post", "redirect", "soap"},
         wantResp : BOOLEAN, wantAssert : BOOLEAN, wantEither : BOOLEAN, nameid : {"transient", "persistent"},
-        sessionExpiry : BOOLEAN, vclass : ValueClasses, unknownAttr : BOOLEAN]
+        sessionExpiry : BOOLEAN, vclass : ValueClasses, unknownAttr : BOOLEAN,
+        skew : {0, 180}]            \* the SP's accepted_time_diff: widens acceptance, never what is reported
 
 \* what the built response carries (Entity._response): with encryption the assertion signature is made
 \* before encrypting and lives inside the cipher text
@@ -28,6 +29,7 @@ Satisfies(s) == /\ (s.wantResp => RespSig(s) # "absent") /\ (s.wantAssert => Ass
 WellFormed(s) == /\ Satisfies(s)
                  /\ (s.vclass # "plain" => ~s.wantEither /\ s.nameid = "transient" /\ s.alg = "sha256" /\ ~s.unknownAttr)
                  /\ (s.unknownAttr => s.binding = "post" /\ ~s.enc)
+                 /\ (s.skew # 0 => s.vclass = "plain" /\ ~s.wantEither /\ s.alg = "sha256" /\ s.nameid = "transient" /\ ~s.unknownAttr)
 
 VARIABLES scn, pc
 vars == <<scn, pc>>
